@@ -26,7 +26,11 @@ def uf_hints(E):
     for app in E.uf_apps:
         if app[0] == 'window' and app[4] in HINT_TEMPLATES:
             _, win, term, ref, name = app
-            out.append(z3.Implies(term, z3.Or(*[str_eq(E, win, E.const_str(t)) for t in HINT_TEMPLATES[name]])))
+            alts = [str_eq(E, win, E.const_str(t)) for t in HINT_TEMPLATES[name]]
+            if name == 'server_name_ok':
+                n = win.cap if win.cap is not None else E.N
+                alts.append(z3.And(z3.UGE(win.ln, 1), *[z3.Implies(z3.ULT(bv(j), win.ln), z3.And(z3.UGE(win.at(j), 97), z3.ULE(win.at(j), 122))) for j in range(n)]))
+            out.append(z3.Implies(term, z3.Or(*alts)))
     return out
 
 
@@ -199,22 +203,22 @@ def decide_validator(C, E, label, fn, native_op, N, lax=None, strict=None, roles
         Unicode class), pin that application to its reference value and re-solve (counterexample-guided refinement).
         Returns ('unsat', None, None) | ('sat', model, vector) with the vector natively confirmed, else raises Broken."""
         fs = list(fs)
-        if want_native in ('accept', 'reject', 'panic'):
-            # first try with "realistic" values for the uninterpreted predicates (cuts the refinement loop short)
-            hints = uf_hints(E)
-            if hints:
-                r, m = C.solve(qname + ' [hinted]', fs + hints)
-                if r == 'sat':
-                    okc, v = confirm(m, want_native)
-                    if okc:
-                        return 'sat', m, v
-        for it in range(60):
+        for it in range(16):
             r, m = C.solve(qname if it == 0 else f'{qname} [refinement {it}]', fs)
             if r == 'unsat':
                 return 'unsat', None, None
             okc, v = confirm(m, want_native)
             if okc:
                 return 'sat', m, v
+            if it == 0:
+                # try "realistic" values for the uninterpreted predicates first (cuts the refinement loop short)
+                hints = uf_hints(E)
+                if hints:
+                    r2, m2 = C.solve(qname + ' [hinted]', fs + hints)
+                    if r2 == 'sat':
+                        okc, v = confirm(m2, want_native)
+                        if okc:
+                            return 'sat', m2, v
             facts = refine_facts(C, E, m)
             if not facts:
                 raise Broken(f'{label}: counterexample of {qname} does not reproduce natively: {v}')
@@ -247,7 +251,8 @@ def decide_validator(C, E, label, fn, native_op, N, lax=None, strict=None, roles
     if r == 'sat':
         raise Broken(f'{label}: path set not exhaustive, e.g. {vec(m)["s_repr"]}')
     # 2. panic-freedom
-    must_be_unsat('no panic outcome', 'panic', base + [disj(outs, 'panic')], 'panic', 'parser panics')
+    for k, o in enumerate(cls.get('panic', [])):
+        must_be_unsat(f'no panic outcome (path {k}: {str(o.value)[:60]})', 'panic', base + [o.cond()], 'panic', 'parser panics')
     # 3. out-of-model region must be stated
     if cls.get('oom'):
         C.assumptions.append(f'{label}: inputs reaching OUT-OF-MODEL library behaviour are outside the claim')
